@@ -737,6 +737,10 @@ def run_equation(rec):
             names = {"flat_main1": ["s1", "s2", "s3"], "flat_main2": ["s2", "s3", "s1"], "nested_main1": ["s1", "s2", "s3"],
                      "nested_main3": ["s3", "s1", "s2"]}[lay]
             nets = {n: make_pinn([U], "ODE") for n, U in zip(names, rec["U"])}
+            if lay in ("flat_main2", "nested_main3"):
+                # a bystander species: present in the dictionary of networks but neither the main species nor listed in keys_other
+                # (a sparse interaction graph) - it must not enter the residual
+                nets["s0"] = make_pinn([[dict(c=3, e=[0]), dict(c=2, e=[1])]], "ODE")
             ud = {k: nets[k] for k in sorted(nets)}            # dict order independent of the roles
             own = {"growth_rate": jnp.array(qf(par["growth"])), "carrying_capacity": jnp.array(qf(par["carry"])),
                    "interactions": jnp.array([qf(v) for v in par["inter"]])}
